@@ -471,7 +471,7 @@ PROPERTIES["C19"]["explanation"] += " (DTARITH) Necessary conditions of `(t + d)
 
 from fmttab import rule_fmttab  # noqa: E402
 
-PROPERTIES["C24"]["rules"] += [("FMTTAB", lambda ctx: rule_fmttab(ctx.lib, ctx.nbt))]
+PROPERTIES["C24"]["rules"] += [("FMTTAB", lambda ctx: rule_fmttab(ctx.lib, ctx.nbt, repo=ctx.repo or _facts.REPO))]
 PROPERTIES["C24"]["explanation"] += " (FMTTAB) Writer/reader table agreement: every literal date-time string passed to datetime() in an @example or a library body (and the templates today()/date() build) is accepted by one of the strptime calls of datetime::parse_datetime, whose format sets are computed from the const table, the for-loop pattern and the lowered format! template; ISO 8601 / RFC 2822 strings are left undecided."
 PROPERTIES["C24"]["assumptions"] = list(PROPERTIES["C24"].get("assumptions", [])) + ["the regular-expression model of jiff's strptime directives (%Y %m %d %H %I %M %S %p %.f %z, whitespace = \\s*) in engine/rules/fmttab.py; unknown directives make a site opaque (nothing is reported against it)"]
 
@@ -687,6 +687,9 @@ SEM_WITNESS = {
     "BATCHSTATE:ffi:typechecker-at-end-of-input": "one file `inspect(1 m^2/s^5)`, `unit zork = m^2/s^5`, `dimension Foo = Length^2 / Time^5` prints `[Foo]` / `1 zork`; line by line `[Length² / Time⁵]` / `1 m²/s⁵`",
     "TYPENAMES:to_readable_type:or": "`fn f(x) = x + 1 J` is echoed as `fn f(x: Energy or Torque) -> Energy or Torque`",
     "TYPENAMES:instantiate_for_printing:fresh-names": "`dimension A`, `unit a: A`, `fn f(x) = x*a` is printed as `fn f<A: Dim>(x: A) -> A²`",
+    "DTSHAPE:elaborate_expression:datetime-branch-before-solving": "`let t = now()`: `t + abs(-1 h)` is a type error (Operator + can not be applied to DateTime, 'T374), `let d = abs(-1 h)` then `t + d` works",
+    "TYPENAMES:instantiate_for_printing:positional-names": "`fn rate<T: Dim, D: Dim>(t: T, d: D) = d / t` is echoed (and shown by `info rate`) as `… -> T / D`; the type is D / T, and the echo is rejected when read back",
+    "TYPENAMES:let:forall-in-echo": "`let xs = []` is echoed as `let xs: forall A. List<A> = []`, which does not parse",
     "STRUCTSUBST:type_from_annotation:sequential": "findings/sem_witnesses.nbt: `hh(2 s)` has type Length and value 2 s",
     "RESULTLAST:vm:result-of-an-earlier-statement": "`numbat -e '5 m' -e 'print(\"x\")' -e 'let y = 1'` prints `x` and then `5 m`; line by line `5 m` then `x`, and the last input has no result",
     "HARDNAME:compile:hard-coded-unit-lookup-unwrapped": "`numbat --no-prelude`: `dimension Time`, `unit sec: Time`, `fn now() -> DateTime`, `now() - now()` panics at bytecode_interpreter.rs (`Option::unwrap()` on `None`: no unit called `second`); with `unit second: Length` the difference of two date-times is a Length",
@@ -713,7 +716,7 @@ def sem(*prefixes):
 
 _SEM_MAP = {
     "C01": ("LASTRES", "FNREF", "UNITENV", "POLYLIT", "STRUCTSUBST", "BASEUNITS", "ZEROCONV"),
-    "C02": ("STRUCTSUBST",),
+    "C02": ("STRUCTSUBST", "DTSHAPE"),
     "C07": ("FNREF", "BATCHSTATE", "RESULTLAST", "CMDWORDS"),
     "C08": ("LASTRES", "FMTSPEC", "FOREIGNDECL", "HARDNAME"),
     "C09": ("LASTRES", "FNREF"),
@@ -838,6 +841,15 @@ for _pid in ("C13", "C09"):
 for _pid in ("C16", "C02"):
     PROPERTIES[_pid]["rules"] += [("TRAV.type_queries", trav("type_queries"))]
     PROPERTIES[_pid]["explanation"] += " (TRAV type_queries) The functions that answer a question about a whole type (type_variables, contains, instantiate) visit every Type payload of every variant, so generalisation keeps the `Dim` bound of a variable wherever it occurs (e.g. only in a function type's return type)."
+
+from quaddiag import rule_quaddiag  # noqa: E402
+
+PROPERTIES["C08"]["rules"] += [("QUADDIAG", lambda ctx: rule_quaddiag(ctx.lib))]
+PROPERTIES["C08"]["explanation"] += " (QUADDIAG) Error payloads built inside the statement loop of Parser::parse walk the tokens of the current statement only (a prefix of the whole input made N faulty lines cost N² time and output)."
+PROPERTIES["C19"]["rules"] += [("SEM", sem("DTSHAPE"))]
+PROPERTIES["C19"]["explanation"] += " (SEM DTSHAPE) known finding: the date-time branch of `+`/`-` is selected on operand types before constraint solving."
+PROPERTIES["C19"]["rules"] += [("FMTTAB", lambda ctx: rule_fmttab(ctx.lib, ctx.nbt, repo=ctx.repo or _facts.REPO))]
+PROPERTIES["C19"]["explanation"] += " (FMTTAB) Every documented example of the date-time format tables in the manual, and every date-time string of the library, is accepted by a format of parse_datetime."
 
 NOT_APPLICABLE = {
     "C03": "numerical agreement of conversion factors over 500 units is a statement about run-time values; no structural clause is a necessary condition that is not already covered under C04/C11/C12 (static analysis cannot bound the arithmetic)",
